@@ -195,10 +195,14 @@ func (db *DB) rawset(entry types.Entry) {
 		db.memtable.freeze()
 		imt := db.memtable
 
-		db.flushC <- imt
+		// publish the frozen memtable and the fresh one together, under the lock that readers
+		// and the flusher take, and before the flusher can see (and remove) the frozen one
+		db.mu.Lock()
 		db.immutables.PushBack(imt)
+		db.memtable = imt.reset()
+		db.mu.Unlock()
 
-		db.memtable = db.memtable.reset()
+		db.flushC <- imt
 	}
 }
 
